@@ -268,6 +268,7 @@ package check
 //@   props C08 C13 C03
 //@   requires wfe(e) && ctx != nil && mapper != nil && 0 <= i && i < len(results)
 //@   requires captured-read-only-mapper: mapper != nil && mapper.ReadOnly
+//@   requires[C08] creator-slot-alignment: 0 <= i && i < len(tuples) && tuple == tuples[i] && len(results) == len(tuples) && maxDepth == old(maxDepth)
 //@   ensures[C03] slot-inv: results[i].Err != nil ==> results[i].Membership != checkgroup.IsMember
 
 // ghost record of the engine's last decision, set by CheckIsMember
